@@ -45,3 +45,24 @@ Example C15_example :
   let algs := [mkAlg reno None; mkAlg reno (Some 2); mkAlg reno (Some 1)] in
   pick algs 0 reno = 2 /\ pick algs 0 [114; 101; 110] = 0 /\ pick algs 0 (reno ++ [88]) = 0 /\ pick algs 0 [] = 0.
 Proof. vm_compute. repeat split; reflexivity. Qed.
+
+(* translator obligations (lib/gen_statespace.py reads the structs, statics and mutable bindings of the
+   modelled code on every run): the code has the state the model represents and no other *)
+From Portus Require Import StateTie.
+From PortusGen Require Import StateSpace.
+From Coq Require Import String.
+Open Scope string_scope.
+Theorem C15_source_run_inner_state : impl_mut_run_inner = model_mut_run_inner.
+Proof. exact mut_run_inner_tie. Qed.
+Print Assumptions C15_source_run_inner_state.
+Theorem C15_source_shared_state_run : nth 1 impl_shared_state_tokens "" = "src/run.rs: AtomicBool HashMap unsafe".
+Proof. exact shared_state_run. Qed.
+Print Assumptions C15_source_shared_state_run.
+
+(* translator obligation shared with C09: run_inner keeps its flows in a map keyed by the datapath
+   address whose values are maps keyed by the flow id, and every access goes through the receive
+   address itself (no digest, no side table, no bulk removal) *)
+From PortusGen Require Import FlowKey.
+Theorem C15_source_keys_flows_by_address_then_flow_id : flow_map_shape = KeyAddrThenSid.
+Proof. reflexivity. Qed.
+Print Assumptions C15_source_keys_flows_by_address_then_flow_id.
